@@ -207,9 +207,18 @@ def check(prog, rep):
                 if callers and callers <= allowed and not exported:
                     allowed.add(fi.name)
                     grew = True
+        def behind(fi):
+            # the function itself, or a function it is nested in, is behind the switch
+            p_ = fi
+            while p_ is not None:
+                if p_.name in allowed:
+                    return True
+                p_ = p_.parent
+            return False
+
         for fi in prog.functions.values():
             for c in calls(fi.node):
-                if dotted(c.func) == worker and fi.name not in allowed:
+                if dotted(c.func) == worker and not behind(fi):
                     rep.ob("R15.4", fi.qual.split(":")[1], False, f"calls the recursive worker {worker} directly, bypassing the depth switch", loc=f"{fi.module.rel}:{c.lineno}", detail=f"direct:{worker}")
         rep.ob("R15.4", worker, True, f"{worker} is only called from {sorted(allowed)}", detail="only-from-switch", loc=None)
 
